@@ -52,6 +52,9 @@ func New() *Match {
 func (m *Match) AddQuery(query []string, client Client) (remove func()) {
 	defer m.mu.Unlock()
 	m.mu.Lock()
+	// The remove function retains query, so take a copy: callers may build
+	// several queries in one backing array (e.g. by appending to a common prefix).
+	query = append([]string(nil), query...)
 	m.tree.addQuery(query, client)
 	return func() {
 		defer m.mu.Unlock()
